@@ -39,6 +39,24 @@ pub struct Entry {
     /// names of the plain magic fields that are not *structurally* identical (syn's PartialEq) to the input's
     /// part; None when the receiver has no such field, the input kind does not match or the conversion failed
     pub exact: fn(&In) -> Option<Vec<&'static str>>,
+    /// the same input through a newtype wrapper `struct NW(pub R)` deriving the same trait (FromMeta,
+    /// FromDeriveInput, FromAttributes) with a container-level transform; None for the other traits
+    pub newtype: fn(&In) -> Option<darling::Result<Val>>,
+    /// 0 = no wrapper, 1 = `map`, 2 = `and_then` that accepts, 3 = `and_then` that refuses
+    pub newtype_mode: u8,
+    /// calls the wrapper's `from_none` (declared through the `from_none` option; counts a hit, returns None)
+    pub newtype_none: fn() -> bool,
+}
+
+thread_local! {
+    static NW_HITS: std::cell::Cell<usize> = std::cell::Cell::new(0);
+}
+/// called by the callables the newtype wrappers declare
+pub fn nw_hit() {
+    NW_HITS.with(|h| h.set(h.get() + 1));
+}
+pub fn nw_take() -> usize {
+    NW_HITS.with(|h| h.replace(0))
 }
 
 pub struct Reg {
@@ -245,6 +263,10 @@ pub fn call_entry(entry: &Entry, s: &Spec, text: &str) -> Result<darling::Result
 }
 
 pub fn call_entry_opt(entry: &Entry, s: &Spec, text: &str, grouped_values: bool) -> Result<darling::Result<Val>, Fail> {
+    call_fn(entry.call, s, text, grouped_values)
+}
+
+pub fn call_fn(call: fn(&In) -> Option<darling::Result<Val>>, s: &Spec, text: &str, grouped_values: bool) -> Result<darling::Result<Val>, Fail> {
     let parse_meta = |text: &str| -> Result<syn::Meta, Fail> {
         if grouped_values {
             let ts: proc_macro2::TokenStream = text.parse().map_err(|e| Fail::new("l3:harness-render", format!("`{}` does not lex: {}", text, e)))?;
@@ -274,22 +296,22 @@ pub fn call_entry_opt(entry: &Entry, s: &Spec, text: &str, grouped_values: bool)
     let res = match s.tr {
         Trait::FromMeta => {
             let m: syn::Meta = parse_meta(text)?;
-            catch(|| (entry.call)(&In::Meta(&m)))
+            catch(|| call(&In::Meta(&m)))
         }
         _ => {
             let di: syn::DeriveInput = parse_item(text)?;
             catch(|| match s.tr {
-                Trait::FromDeriveInput => (entry.call)(&In::DeriveInput(&di)),
-                Trait::FromAttributes => (entry.call)(&In::Attrs(&di.attrs)),
+                Trait::FromDeriveInput => call(&In::DeriveInput(&di)),
+                Trait::FromAttributes => call(&In::Attrs(&di.attrs)),
                 Trait::FromField => match &di.data {
-                    syn::Data::Struct(st) => (entry.call)(&In::Field(st.fields.iter().next().expect("field"))),
+                    syn::Data::Struct(st) => call(&In::Field(st.fields.iter().next().expect("field"))),
                     _ => None,
                 },
                 Trait::FromVariant => match &di.data {
-                    syn::Data::Enum(e) => (entry.call)(&In::Variant(e.variants.iter().next().expect("variant"))),
+                    syn::Data::Enum(e) => call(&In::Variant(e.variants.iter().next().expect("variant"))),
                     _ => None,
                 },
-                Trait::FromTypeParam => (entry.call)(&In::TypeParam(di.generics.type_params().next().expect("type param"))),
+                Trait::FromTypeParam => call(&In::TypeParam(di.generics.type_params().next().expect("type param"))),
                 Trait::FromMeta => unreachable!(),
             })
         }
@@ -520,6 +542,49 @@ fn nontrivial_c01(st: &InputStats, nodes: &[Node]) -> bool {
 }
 
 /// C01 / C02 / C03b on one (receiver, bytes) case.
+/// The newtype wrapper of a receiver (`struct NW(pub R)` deriving the same trait, with a container-level
+/// `map` / `and_then`) delegates to the receiver and then applies its own transform: same value, the callable
+/// called exactly once on success and never on failure, the same mistakes on failure.
+pub fn check_newtype(ctx: &Ctx, reg: &Reg, s: &Spec, text: &str, got: &darling::Result<Val>, prop: &str) -> Result<(), Fail> {
+    let entry = reg.entries.get(&s.id).expect("entry");
+    if entry.newtype_mode == 0 {
+        return Ok(());
+    }
+    ctx.eval();
+    nw_take();
+    let wrapped = call_fn(entry.newtype, s, text, false)?;
+    let hits = nw_take();
+    let mode = ["", "map", "and_then", "and_then(refusing)"][entry.newtype_mode as usize];
+    ctx.class(&format!("newtype-wrapper:{}", mode));
+    match (got, &wrapped) {
+        (Ok(v), Ok(wv)) => {
+            ensure!(entry.newtype_mode != 3, format!("{}:newtype:refusal-lost", prop), "newtype wrapper of {} declares an and_then that refuses everything, yet `{}` converts", emit_short(s), text);
+            ensure!(erase_spans(v) == erase_spans(wv), format!("{}:newtype:wrong-value", prop), "newtype wrapper of {} on `{}` holds {:?}, the receiver itself gives {:?}", emit_short(s), text, wv, v);
+            ensure!(hits == 1, format!("{}:newtype:transform-calls", prop), "newtype wrapper of {} ({} at container level) on `{}`: the callable ran {} times, expected once", emit_short(s), mode, text, hits);
+        }
+        (Ok(_), Err(e)) => {
+            let shown = e.to_string();
+            ensure!(entry.newtype_mode == 3 && shown.contains("nw refuses") && e.len() == 1 && hits == 1, format!("{}:newtype:rejected", prop), "newtype wrapper of {} ({}) rejects `{}` ({}; callable ran {} times) although the receiver accepts it", emit_short(s), mode, text, shown, hits);
+        }
+        (Err(e), Ok(_)) => fail!(format!("{}:newtype:accepted", prop), "newtype wrapper of {} accepts `{}` although the receiver reports {}", emit_short(s), text, e),
+        (Err(e), Err(we)) => {
+            let mut a: Vec<String> = observed_leaves(e).iter().map(|l| format!("{:?} {} {:?}", l.kind, l.display, l.path)).collect();
+            let mut b: Vec<String> = observed_leaves(we).iter().map(|l| format!("{:?} {} {:?}", l.kind, l.display, l.path)).collect();
+            a.sort();
+            b.sort();
+            ensure!(a == b, format!("{}:newtype:other-mistakes", prop), "newtype wrapper of {} on `{}` reports {:?}, the receiver itself {:?}", emit_short(s), text, b, a);
+            ensure!(hits == 0, format!("{}:newtype:transform-on-failure", prop), "newtype wrapper of {} on `{}`: the container-level callable ran {} times although conversion failed", emit_short(s), text, hits);
+        }
+    }
+    if s.tr == Trait::FromMeta {
+        nw_take();
+        let none = catch(|| (entry.newtype_none)()).map_err(|p| Fail::new(format!("l3:panic:{}", vmodel::util::panic_sig(&p)), format!("from_none of the newtype wrapper of R{} panicked: {}", s.id, p)))?;
+        let hits = nw_take();
+        ensure!(none && hits == 1, format!("{}:newtype:from_none-option-ignored", prop), "newtype wrapper of {} declares `from_none = ..`; FromMeta::from_none ran the callable {} times (expected once)", emit_short(s), hits);
+    }
+    Ok(())
+}
+
 pub fn check_struct_case(ctx: &Ctx, reg: &Reg, s: &Spec, bytes: &[u8], prop: &str) -> Result<(), Fail> {
     fresh_spans();
     let w = reg.world();
@@ -530,6 +595,7 @@ pub fn check_struct_case(ctx: &Ctx, reg: &Reg, s: &Spec, bytes: &[u8], prop: &st
     let lay = gen_layout(s, nodes.len(), &mut d);
     let o = run_case(reg, s, &nodes, &lay)?;
     let _ = &lay;
+    check_newtype(ctx, reg, s, &o.text, &o.got, prop)?;
     ctx.set_render(json!({"receiver": s.name(), "trait": s.tr.name(), "input": o.text, "declaration": emit_short(s), "specs": enums::deps_closure(reg, s)}));
     classify_stats(ctx, s, &st, &nodes);
     ctx.sample(|| json!({"receiver": emit_short(s), "input": o.text, "model": format!("{:?}", o.want).chars().take(300).collect::<String>()}));
